@@ -65,7 +65,8 @@ def run_group(run, group, widths, limit, big=False, wide=(), wide_frac=0.25):
     # wide instances: boundary + random vectors only
     for w in wide:
         for cfg in library.catalogue(rng, widths=(w,), groups=(group,)):
-            if max(cfg['iw'] + cfg['ow']) > 28 or (cfg['kind'] in ('Mul', 'SignedMul', 'FixedPointMult') and sum(cfg['iw'][:2]) > 30):
+            eff = [cfg['iw'][a - 1] for a in cfg['c']['alias']] if 'alias' in cfg['c'] else cfg['iw']      # widths per operand
+            if max(cfg['iw'] + cfg['ow']) > 28 or (cfg['kind'] in ('Mul', 'SignedMul', 'FixedPointMult') and sum(eff[:2]) > 30):
                 continue
             if rng.random() > wide_frac:
                 continue
